@@ -1285,7 +1285,7 @@ val cols : config -> nat
 
 val take_in_chunk : inchar list -> (inchar * inchar list) option
 
-val take_first : inchar list list -> (inchar * istream) option
+val take_first : inchar list -> inchar list list -> (inchar * istream) option
 
 val take_char : inchar list -> inchar list list -> (inchar * istream) option
 
